@@ -104,7 +104,8 @@ func GetPosition(ast MalType) *Position {
 		// throw or assert
 		return nil
 	default:
-		panic(fmt.Errorf("GetPosition(%T)", value))
+		// a value that carries no position (a number, a string, a Go object...)
+		return nil
 	}
 }
 
